@@ -266,6 +266,7 @@ package setec
 //@     progress [C20 parse.name-nonempty] !defined(fi) || !ok || (fi.secretName != "")
 //@ func ParseFields(v, namePrefix) (fs, err)
 //@   ensures [C20 parsefields.result] (err == nil ==> (fs != nil && allocated(fs) && fs.prefix == namePrefix && len(fs.fields) > 0)) && (err != nil ==> fs == nil)
+//@   ensures [C20 parsefields.keeps-every-parsed-field] err == nil ==> fs.fields == call_parseFields_0
 //@ func (*Fields).Secrets(f) (out)
 //@   requires f != nil
 //@   ensures [C20 secrets.names] len(out) == len(f.fields) && (forall i int :: (0 <= i && i < len(f.fields)) ==> out[i] == pathJoin2(f.prefix, f.fields[i].secretName))
@@ -355,6 +356,12 @@ package setec
 //@     invariant [inv] storeInv(s)
 //@     invariant [writes] cacheWrites >= old(cacheWrites)
 //@     invariant [C11 run.keeps-polling] doPoll != nil && doPoll == call_Chan
+
+// Close stops the poller and waits for it; it leaves entries, handles and watchers alone (handles keep working after Close).
+//@ func (*Store).Close(s) (err)
+//@   requires s != nil && s.cancel != nil && s.done != nil
+//@   ensures [C12 close.keeps-entries-and-handles] sameEntries(s) && handlesKept(s) && (forall n string :: has(s.active.f, n) == old(has(s.active.f, n))) && (forall n string :: has(s.active.w, n) == old(has(s.active.w, n)))
+//@   ensures [C12 close.no-request] net == old(net) && err == nil
 
 // ---- watchers ------------------------------------------------------------------------------
 //@ func (watcher).notify(w)
